@@ -230,8 +230,14 @@ func (s *worldStream) genVote(r *tr.Rng, method string, payload []byte) voteSpec
 		sp.cls = "bitmap-odd-length"
 		sp.rawBmp = r.Bytes(tr.Pick(r, 1, 3, 7, 9, 12, 31))
 	case 21:
-		sp.cls = "bitmap-too-long"
-		sp.rawBmp = append(bitmapBytes(sp.marks), make([]byte, 40)...)[:40]
+		if r.Bool() {
+			sp.cls = "bitmap-too-long"
+			sp.rawBmp = append(bitmapBytes(sp.marks), make([]byte, 40)...)[:40]
+		} else {
+			// the same marks in the longest bitmap the validation admits (32 bytes = 256 positions): a valid vote
+			sp.cls += "/bitmap=32-bytes"
+			sp.rawBmp = append(bitmapBytes(sp.marks), make([]byte, 32)...)[:32]
+		}
 	case 22:
 		sp.cls = "sig-bad-length"
 		sp.rawSig = r.Bytes(tr.Pick(r, 0, 47, 49, 96))
@@ -348,7 +354,13 @@ func (s *relayerStream) Gen(r *tr.Rng) *tr.Op {
 		return s.pop()
 	}
 	v := s.view()
-	switch c := r.Intn(100); {
+	c := r.Intn(100)
+	implicitAccept := false
+	if !v.rel.ProposerAccepted && len(s.pending) > 0 && r.Chance(50) {
+		// a freshly elected proposer that has not accepted yet: its first valid non-voted message accepts implicitly
+		c, implicitAccept = 80, true
+	}
+	switch {
 	case c < 45: // voted message: new block hashes
 		tip, _ := s.w.Btc.BlockTip.Peek(s.w.Ctx)
 		start := tip + 1
@@ -498,7 +510,13 @@ func (s *relayerStream) Gen(r *tr.Rng) *tr.Op {
 			cls = "newvoter/bad-lengths"
 			txProof = txProof[:63]
 		}
+		if implicitAccept {
+			cls += "/proposer-not-yet-accepted"
+		}
 		s.push(tr.NewOp(cls, "tx.newvoter", "proposer", prop, "blskey", tr.Hex(blsKey), "blsproof", tr.Hex(blsProof), "txkey", tr.Hex(m.TxKey), "txproof", tr.Hex(txProof), "time", s.now))
+		if implicitAccept {
+			s.push(tr.NewOp("dump", "dump.rel"))
+		}
 	case c < 90: // accept proposer
 		cls := "accept/current"
 		prop, epoch := v.rel.Proposer, v.rel.Epoch
